@@ -232,7 +232,8 @@ func (fr *frame) invEnv(l *loopInfo, st *State, env map[ssa.Value]Val) *TEnv {
 		}
 	}
 	if fr.contract != nil {
-		te.bindLets(fr.contract, true)
+		// letold names denote values of the function's entry state
+		te.withState(fr.entry).bindLets(fr.contract, true)
 	}
 	return te
 }
